@@ -571,11 +571,13 @@ class Statechart:
             self.add_state(statechart_copy.state_for(new_name),
                            statechart_copy.parent_for(new_name))
 
-        # Copy transitions
-        transitions = set()
+        # Copy transitions (each one once, even if it is equal to another one)
+        transitions = []  # type: List[Transition]
         for name in [source_name] + statechart_copy.descendants_for(source_name):
-            transitions.update(statechart_copy.transitions_from(name))
-            transitions.update(statechart_copy.transitions_to(name))
+            for transition in (statechart_copy.transitions_from(name)
+                               + statechart_copy.transitions_to(name)):
+                if not any(transition is other for other in transitions):
+                    transitions.append(transition)
         for transition in transitions:
             try:
                 self.add_transition(transition)
